@@ -70,7 +70,7 @@ def check(an, rep, tier):
         'input, NaN coming from the user\'s data.')
     rep.assumptions = pre('PRE-TT', 'PRE-D', 'PRE-N2', 'PRE-DOC')
     rep.trusted = ['NumPy model', 'accepted-denominator table in props/C11.py']
-    ds = (2, 3) if tier == 'quick' else (2, 3, 4)
+    ds = (2, 3) if tier == 'quick' else (2, 3, 4, 5)
     lb = {}
     for k in range(5):
         for p in ('A.n', 'Y.n'):
@@ -170,52 +170,35 @@ def check(an, rep, tier):
                 '' if ok else 'the rank floor max(1, .) is gone: a bond of '
                 'size 0 becomes possible for the zero matrix',
                 line=fn.node.lineno, file=fn.module.path)
-    # --- P-sentinel
+    # --- P-sentinel, on the abstract runs of accuracy() for TT arguments:
+    # the quotient of the two stabilised norms is computed only behind a test
+    # that excludes a tiny |denominator|, and the degenerate case returns the
+    # documented sentinel -1 (found by value, not by statement shape)
     fn = prog.func('act_two.accuracy')
     mod = fn.module
-    # every returned quotient  x / D  (D a local scalar) is dominated by the
-    # failing test  abs(D) < c  of a branch that returns the sentinel -1
-    def _is_abs_of(x, name):
-        return isinstance(x, ast.Call) and len(x.args) == 1 and \
-            isinstance(x.args[0], ast.Name) and x.args[0].id == name and \
-            (prog.dotted(x.func) or getattr(x.func, 'id', '')
-             ).split('.')[-1] in ('abs', 'fabs', 'absolute')
-    quot = [n for n in ast.walk(fn.node) if isinstance(n, ast.Return) and
-            isinstance(n.value, ast.BinOp) and
-            isinstance(n.value.op, ast.Div) and
-            isinstance(n.value.right, ast.Name)]
-    ok = bool(quot)
-    for q_ in quot:
-        den = q_.value.right.id
-        gs = paths.guards_of(fn.node, q_)
-        big = any(oc in (ast.GtE, ast.Gt) and _is_abs_of(l, den)
-                  for _, oc, _, l, r in paths.cmp_facts(gs))
-        sentinel = False
-        for node in ast.walk(fn.node):
-            if isinstance(node, ast.If) and node.lineno < q_.lineno:
-                for arm, pol in ((node.body, True), (node.orelse, False)):
-                    if any(isinstance(s_, ast.Return) and
-                           isinstance(s_.value, ast.UnaryOp) and
-                           isinstance(s_.value.op, ast.USub) and
-                           isinstance(s_.value.operand, ast.Constant) and
-                           s_.value.operand.value == 1 for s_ in arm):
-                        t_ = node.test
-                        while isinstance(t_, ast.UnaryOp) and \
-                                isinstance(t_.op, ast.Not):
-                            t_, pol = t_.operand, not pol
-                        parts = t_.values if isinstance(t_, ast.BoolOp) and \
-                            isinstance(t_.op, ast.Or) and pol else [t_]
-                        for v_ in parts:
-                            if any(oc in (ast.Lt, ast.LtE) and
-                                   _is_abs_of(l, den) for _, oc, _, l, r in
-                                   paths.cmp_facts([(v_, pol)])):
-                                sentinel = True
-        ok = ok and big and sentinel
-    rep.add('P-sentinel', 'act_two.accuracy', 'return -1 when |z2| tiny',
-            'ok' if ok else 'violation',
-            '' if ok else 'the degenerate branch (returning the sentinel -1) '
-            'no longer dominates the quotient', line=fn.node.lineno,
-            file=mod.path)
+    for r in scal_runs:
+        if r.qualname != 'act_two.accuracy' or not any(
+                c_[0] == 'act_one.norm' for c_ in r.I.call_log):
+            continue                # dense convenience path
+        sent = any(rv.has_const() and rv.c == -1 for rv in r.returns)
+        divs = [s for s in r.I.sites if s.rule == 'G-div' and
+                s.where == 'act_two.accuracy' and
+                (s.where, s.construct) not in ACCEPTED_DEN]
+        bad = [s for s in divs if s.status != 'ok']
+        if bad:
+            st_, det_ = 'violation', 'the quotient %s is not dominated by ' \
+                'the test that sends a tiny |denominator| to the sentinel ' \
+                '-1' % bad[0].construct
+        elif divs and sent:
+            st_, det_ = 'ok', ''
+        elif divs:
+            st_, det_ = 'unknown', 'the quotient is guarded but no return ' \
+                'path yields the sentinel -1'
+        else:
+            st_, det_ = 'unknown', 'quotient of the two norms not found'
+        rep.add('P-sentinel', 'act_two.accuracy', 'return -1 when |z2| tiny '
+                '(%s)' % r.tag(), st_, det_, line=fn.node.lineno,
+                file=mod.path)
     # --- V-show
     fn = prog.func('vis.show')
     txt = model.norm_src(fn.module, fn.node)
